@@ -43,6 +43,30 @@ func (l *loggingCollector) Add(in interface{}) error {
 	return nil
 }
 
+// jitterCollector sits between the buffered collector and the synchronized one and yields or sleeps
+// before delegating (outside the mutex): the buffered collector's worker is then regularly caught
+// between taking a sample from its pipe and handing it on.
+type jitterCollector struct {
+	ftdc.Collector
+	seed int64
+	n    int64
+	mu   sync.Mutex
+}
+
+func (j *jitterCollector) Add(in interface{}) error {
+	j.mu.Lock()
+	j.n++
+	k := (j.n*2654435761 + j.seed) >> 3 & 7
+	j.mu.Unlock()
+	switch {
+	case k < 2:
+		runtime.Gosched()
+	case k == 2:
+		time.Sleep(30 * time.Microsecond)
+	}
+	return j.Collector.Add(in)
+}
+
 // conc-coll <wrapper> <G> <M> <buf> <gomaxprocs> <seed>    wrapper: sync | buffered
 func cmdConcColl(o *Out, line string, f []string) {
 	wrapper := f[0]
@@ -54,27 +78,35 @@ func cmdConcColl(o *Out, line string, f []string) {
 	defer cancel()
 	var c ftdc.Collector = ftdc.NewSynchronizedCollector(inner)
 	if wrapper == "buffered" {
-		c = ftdc.NewBufferedCollector(ctx, buf, c)
+		c = ftdc.NewBufferedCollector(ctx, buf, &jitterCollector{Collector: c, seed: atoi64(f[5])})
 	}
 	var wg sync.WaitGroup
 	acked := make([][]int64, G)
 	var ackMu sync.Mutex
 	stopObs := make(chan struct{})
 	var obsWg sync.WaitGroup
-	if wrapper == "sync" {
-		// concurrent observers
+	{
+		// concurrent observers (on the synchronized collector, or on the buffered collector over it)
 		obsWg.Add(1)
 		go func() {
 			defer obsWg.Done()
+			round := 0
 			for {
 				select {
 				case <-stopObs:
 					return
 				default:
 					_ = c.Info()
-					_, _ = c.Resolve()
+					// Resolve re-compresses everything collected so far: a bounded number of calls per case
+					if round++; round%3 == 0 && round < 3*96 {
+						_, _ = c.Resolve()
+					}
 					_ = c.SetMetadata(birch.NewDocument(birch.EC.Int64("m", 1)))
-					runtime.Gosched()
+					if wrapper == "buffered" {
+						time.Sleep(150 * time.Microsecond) // do not starve the single worker under the race detector
+					} else {
+						runtime.Gosched()
+					}
 				}
 			}
 		}()
